@@ -617,7 +617,9 @@ def ifexp_assign_to_if_inplace(root) -> int:
             if not (isinstance(lst, list) and lst and isinstance(lst[0], ast.stmt)):
                 continue
             for i, st in enumerate(lst):
-                if isinstance(st, ast.Assign) and len(st.targets) == 1 and isinstance(st.value, ast.IfExp) and isinstance(st.targets[0], (ast.Name, ast.Attribute)):
+                if isinstance(st, ast.Assign) and len(st.targets) == 1 and isinstance(st.value, ast.IfExp) and (
+                        isinstance(st.targets[0], (ast.Name, ast.Attribute)) or (isinstance(st.targets[0], ast.Subscript) and all(
+                            isinstance(x, (ast.Name, ast.Attribute, ast.Constant, ast.Tuple, ast.Subscript, ast.expr_context)) for x in ast.walk(st.targets[0])))):
                     v = st.value
                     a = ast.copy_location(ast.Assign(targets=[ast_copy(st.targets[0])], value=v.body), st)
                     b = ast.copy_location(ast.Assign(targets=[ast_copy(st.targets[0])], value=v.orelse), st)
